@@ -40,6 +40,7 @@ type rules struct {
 	procs   bool            // runtime.GOMAXPROCS(0) -> verifsim.Procs()
 	graph   bool            // loader.Graph -> verifhook.Graph
 	stdio   bool            // os.Stdout/os.Stderr -> verifsim.Stdout()/Stderr()
+	cmdline bool            // package lintcmd: cache.Default() -> cache.VerifDefault(), computeSalt() -> verifSalt(), os.Environ() -> verifEnviron(): the per-OS-process inputs of Command.Execute become per-simulated-process
 	yieldAt []string        // "Recv.Func": a scheduling point is inserted at function entry (pre-emption points inside long sequential code)
 	regist  []string        // composite literal types whose address is registered for canonical map keys
 	skip    map[string]bool // file base names not to touch
@@ -51,7 +52,7 @@ var plan = map[string]rules{
 	"honnef.co/go/tools/internal/robustio": {fs: true},
 	"honnef.co/go/tools/internal/sync":     {conc: true},
 	"honnef.co/go/tools/lintcmd/runner":    {fs: true, conc: true, maps: true, procs: true, graph: true},
-	"honnef.co/go/tools/lintcmd":           {conc: true, maps: true, stdio: true},
+	"honnef.co/go/tools/lintcmd":           {conc: true, maps: true, stdio: true, cmdline: true},
 	"honnef.co/go/tools/go/ir": {conc: true, maps: true, procs: true, regist: []string{"task"},
 		yieldAt: []string{"builder.buildFunction", "builder.stmt", "builder.buildParamsOnly", "builder.buildWrapper", "builder.buildBound", "builder.buildInstantiationWrapper", "builder.buildFromSyntax", "builder.buildYieldFunc", "builder.buildPackageInit", "Function.finishBody", "Function.done", "Function.startBody"}},
 	"honnef.co/go/tools/unused": {maps: true},
@@ -147,6 +148,14 @@ func main() {
 	if *out != "" {
 		b, _ := json.MarshalIndent(rep, "", " ")
 		os.WriteFile(*out, b, 0666)
+	}
+	if *only == "" {
+		// the entry point of a simulated linter process relies on these
+		for _, must := range []string{"cache.Default", "computeSalt", "os.Environ", "loader.Graph"} {
+			if rep.Rewrites[must] == 0 {
+				rep.Unsupported = append(rep.Unsupported, "expected call "+must+"() not found in the packages it is redirected in")
+			}
+		}
 	}
 	if len(rep.Unsupported) > 0 {
 		for _, u := range rep.Unsupported {
@@ -333,8 +342,30 @@ func (rw *rewriter) rewrite() bool {
 					return true
 				}
 			}
+			if id, ok := n.Fun.(*ast.Ident); ok && rw.r.cmdline && id.Name == "computeSalt" && len(n.Args) == 0 {
+				if _, isFunc := info.Uses[id].(*types.Func); isFunc {
+					rw.changed = true
+					rep.Rewrites["computeSalt"]++
+					n.Fun = ast.NewIdent("verifSalt")
+					return true
+				}
+			}
 			if sel, ok := n.Fun.(*ast.SelectorExpr); ok {
 				switch rw.pkgOf(sel.X) {
+				case "honnef.co/go/tools/lintcmd/cache":
+					if rw.r.cmdline && sel.Sel.Name == "Default" && len(n.Args) == 0 {
+						rw.changed = true
+						rep.Rewrites["cache.Default"]++
+						n.Fun = &ast.SelectorExpr{X: sel.X, Sel: ast.NewIdent("VerifDefault")}
+						return true
+					}
+				case "os":
+					if rw.r.cmdline && sel.Sel.Name == "Environ" && len(n.Args) == 0 {
+						rw.changed = true
+						rep.Rewrites["os.Environ"]++
+						c.Replace(&ast.CallExpr{Fun: ast.NewIdent("verifEnviron")})
+						return true
+					}
 				case "runtime":
 					if rw.r.procs && sel.Sel.Name == "GOMAXPROCS" && len(n.Args) == 1 {
 						if lit, ok := n.Args[0].(*ast.BasicLit); ok && lit.Value == "0" {
